@@ -143,6 +143,8 @@ def run_case(case, root, ck=None):
             problems.append((sig, what))
 
     nontrivial = False
+    nomodel = [False]
+    dupkeys = set()
     with clock.scripted():
         env = Env(os.path.join(root, 'db'), flavor, keep_old=case.get('keep_old', False), pack_gc=True)
         S = env.storage
@@ -186,11 +188,20 @@ def run_case(case, root, ck=None):
                 for k, b in list(L.files.items()):
                     if k not in files:
                         if after == 'pack':
-                            bad('C13:nonundo-pack-removes-kept-blob' if flavor == 'wrap' else
-                                'C13:pack-removes-kept-blob',
-                                'pack removed the blob file of revision %r whose record is kept' % (k,))
-                            if flavor == 'wrap':
-                                del L.files[k]         # open finding: report once, no cascade
+                            dup = flavor == 'fs' and k in dupkeys
+                            if dup:
+                                # the transaction holds a superseded duplicate record of this revision (multi-undo):
+                                # fspack's is_dup test misses duplicates kept through a back pointer from after
+                                # the pack time (corpus/C13/repro_pack_duplicate_undo_record.py)
+                                bad('C13:pack-removes-blob-of-duplicated-record', 'pack removed the blob file of kept '
+                                    'revision %r: its transaction holds a superseded duplicate record' % (k,))
+                                nomodel[0] = True
+                            else:
+                                bad('C13:nonundo-pack-removes-kept-blob' if flavor == 'wrap' else
+                                    'C13:pack-removes-kept-blob',
+                                    'pack removed the blob file of revision %r whose record is kept' % (k,))
+                            if flavor == 'wrap' or dup:
+                                del L.files[k]         # report once, no cascade
                                 L.gone.add(k)
                         elif foreign_seen:
                             bad('C13:foreign-abort-removes-blob', 'blob file %r missing after %s' % (k, after))
@@ -399,6 +410,11 @@ def run_case(case, root, ck=None):
                       # pack time: just after the i-th newest transaction (0: after everything)
                       tt = TimeStamp(p64(tids[-1 - i] if i < len(tids) else tids[0])).timeTime()
                       tt = tt + 0.5 if i < len(tids) else tt - 0.5
+                      seen_k = set()
+                      for o, t, kd in env.records():
+                          if (o, t) in seen_k:
+                              dupkeys.add((o, t))      # superseded duplicate record (multi-undo)
+                          seen_k.add((o, t))
                       try:
                           if flavor == 'fs':
                               S.pack(tt, referencesf, gc=bool(op[2]))
@@ -448,6 +464,9 @@ def run_case(case, root, ck=None):
                 cnt('copy')
         finally:
             env.close()
+    if nomodel[0]:
+        # the model keeps one record per oid and transaction: it does not follow this history
+        return dict(lines=[], real=[], problems=problems, nontrivial=nontrivial, stats=stats, tie=env.tie_breaks)
     return dict(lines=['reset ' + flavor] + env.lines + extra[0], real=['ok'] + env.real + extra[1],
                 problems=problems, tie=env.tie_breaks,
                 nontrivial=nontrivial, stats=stats)
